@@ -179,7 +179,7 @@ def make_hooks(dom, rec, n, flag_policy=None, ode_out=None, on_ode=None, extra=N
         "index_set": idx_set2,
         "fns": {"Matrix::from_storage": mk_matrix, "Matrix::zeros": mk_matrix, "lu_decomp": lu_decomp, "lin_solve": lin_solve,
                 **({"change_d": change_d_model, "weighted_rms_scaled": rms_model} if dom.name == "round" else {}),
-                "lu_decomp_complex": lu_decomp, "lin_solve_complex": lambda it, ar, ai, br, bi, ip: (lin_solve(it, ar, br, ip), lin_solve(it, ai, bi, ip))[0]},
+                "lu_decomp_complex": lambda it, ar, ai, ip: lu_decomp(it, ar, ip), "lin_solve_complex": lambda it, ar, ai, br, bi, ip: (lin_solve(it, ar, br, ip), lin_solve(it, ai, bi, ip))[0]},
         "globals": {},
     }
     if extra:
